@@ -356,8 +356,9 @@ fn refill_cases_from(ctx: &mut Ctx, name: &str, clause: &str, maxwords: u32, lon
 }
 
 fn col_cases(ctx: &mut Ctx, maxlen: u32) {
-    // incl. an all-ASCII cell with an escape sequence / a zero-width control character (width != byte length, yet is_ascii())
-    const A: &[&str] = &[" ", "a", "bcd", "你", "\n", "\x1b[1m", "\t", "\u{301}"];
+    // incl. an all-ASCII cell with an escape sequence / a zero-width control character (width != byte length, yet is_ascii()),
+    // and the opener of an OSC sequence that is never terminated (it swallows whatever follows it in the row)
+    const A: &[&str] = &[" ", "a", "bcd", "你", "\n", "\x1b[1m", "\t", "\u{301}", "\x1b]0;"];
     let gaps: &[(&'static str, &'static str, &'static str)] = &[("", "", ""), ("| ", " | ", " |"), ("你", "你", ""), ("", "  ", "x")];
     let ns = count_strings(A.len() as u64, maxlen);
     let widths = [0usize, 1, 2, 5, 9, 14, 23];
